@@ -49,6 +49,33 @@ def search(ctx):
             found.append({"case": case, "what": what, "inputs": inputs, "error": float(err), "tolerance": tol,
                           "obligation": "search:" + case})
     n = 12 if ctx.tier == "quick" else 200
+    # vector-valued curves (2 and 3 rows), EVERY derivative order up to the degree itself, through the real class
+    import casadi as ca
+    import cyecca.models.bezier as bz
+    for dim in (2, 3):
+        for N in range(1, 6):
+            for it in range(max(2, n // 4)):
+                P = rng.standard_normal((dim, N + 1)) * 3
+                T = float(rng.choice([0.5, 1.0, 2.0])); t = float(rng.uniform(-0.3 * T, 1.3 * T))
+                inp = {"P": P.tolist(), "T": T, "t": t, "rows": dim, "degree": N}
+                try:
+                    B = bz.Bezier(ca.SX(ca.DM(P)), T)
+                    vals = [np.array(ca.DM(ca.densify(ca.SX(B.eval(t))))).ravel()]
+                    for m in range(1, N + 1):
+                        vals.append(np.array(ca.DM(ca.densify(ca.SX(B.deriv(m).eval(t))))).ravel())
+                except Exception as e:   # noqa: BLE001
+                    report("eval:vector:raises", "Bezier eval/deriv raises for a vector-valued curve: %s" % type(e).__name__, inp, 1.0, 0); continue
+                ev += 1; distinct += 1
+                for r in range(dim):
+                    c = bern_poly(P[r], T)
+                    for m in range(0, N + 1):
+                        ref = Pl.polyval(t, c) if len(c) else 0.0
+                        got = vals[m][r] if len(vals[m]) == dim else float("nan")
+                        scm = (1 + np.max(np.abs(P))) * (2 * (1 + abs(t) / T)) ** N * (N / T) ** m * 4
+                        if not abs(got - ref) <= 1e-9 * scm:
+                            report("eval:vector:deriv%d" % m, "vector-valued curve: derivative of order %d is not the exact derivative (row %d of %d, degree %d)" % (m, r, dim, N),
+                                   inp, abs(got - ref) if np.isfinite(got) else 1e9, 1e-9 * scm)
+                        c = Pl.polyder(c)
     for N in range(1, 8):
         f = nl.F("Bezier", "bezier.eval%d" % N)
         for it in range(n):
